@@ -124,7 +124,7 @@ func TestVerifC12AuthHist(t *testing.T) {
 	defer px.Close()
 	client := &http.Client{Transport: &http.Transport{MaxIdleConnsPerHost: 32, DisableCompression: true}, Timeout: 60 * time.Second}
 
-	var ran, attempts, accepted, rejected, reloads, seq, nontrivial, notApplied, skippedAfter, unchangedTime int64
+	var ran, attempts, accepted, rejected, reloads, seq, nontrivial, notApplied, skippedAfter, unchangedTime, removals int64
 	// the refresh contract is a time bound: a replaced file is in force one refresh interval later.
 	// The harness waits 250 intervals (>= 5 s) before it calls a refresh missing.
 	bound := 250 * refresh
@@ -138,13 +138,60 @@ func TestVerifC12AuthHist(t *testing.T) {
 		h := &hists[i]
 		name := fmt.Sprintf("h%d", i)
 		mtime := int64(verifx.C12HistBaseMtime) // of the file the scheme has loaded
+		prevLive := []string{"v1"}
 		k := 0
 		sawAccept := false
 		feat := func(clause, cause string) map[string]any {
 			return map[string]any{"sub": "auth-history", "clause": clause, "cause": cause}
 		}
 		for pos, e := range h.Events {
+			if e.Ev == "remove" {
+				if atomic.LoadInt64(&notApplied) >= 3 {
+					atomic.AddInt64(&skippedAfter, 1)
+					return
+				}
+				if err := os.Remove(files[i]); err != nil {
+					oracle("remove: %v", err)
+					return
+				}
+				// the file is gone: within the time bound nobody is accepted any more - observed on the sentinel
+				// users of the contents that could be in force
+				deadline := time.Now().Add(bound)
+				cleared := false
+				for {
+					still := false
+					for _, v := range prevLive {
+						if v == "gone" {
+							continue
+						}
+						req := httptest.NewRequest("GET", "http://c12.test/", nil)
+						verifx.C12HistSentinel(req, v)
+						if schemes[name].Authorized(req, httptest.NewRecorder()) {
+							still = true
+						}
+					}
+					if !still {
+						cleared = true
+						break
+					}
+					if time.Now().After(deadline) {
+						break
+					}
+					time.Sleep(2 * time.Millisecond)
+				}
+				if !cleared {
+					atomic.AddInt64(&notApplied, 1)
+					verifx.Fail(h, feat("refresh-not-applied", "file-removed"),
+						"history [%s], event %d: the htpasswd file disappeared; %v later (refresh interval %v) the credentials of the content loaded before are still accepted",
+						h.Text(), pos+1, bound, refresh)
+					return
+				}
+				atomic.AddInt64(&removals, 1)
+				prevLive = e.Live
+				continue
+			}
 			if e.Ev == "reload" {
+				prevLive = e.Live
 				if e.Mt != "equal" && atomic.LoadInt64(&notApplied) >= 3 {
 					// a tree whose refresh is broken: do not spend the time bound on every history
 					atomic.AddInt64(&skippedAfter, 1)
@@ -283,6 +330,6 @@ func TestVerifC12AuthHist(t *testing.T) {
 	close(jobs)
 	wg.Wait()
 	verifx.Summary(map[string]any{"histories": len(hists), "ran": ran, "attempts": attempts, "accepted": accepted, "rejected": rejected,
-		"reloads": reloads, "refresh_not_applied": notApplied, "skipped_after_refresh_failures": skippedAfter,
+		"reloads": reloads, "removals": removals, "refresh_not_applied": notApplied, "skipped_after_refresh_failures": skippedAfter,
 		"unchanged_mtime_replacements": unchangedTime, "distinct_nontrivial": nontrivial, "samples": samples, "plumbing": plumbing})
 }
